@@ -66,6 +66,11 @@ SEEDS = {
         "nodes": {0: (0, (0, 2, 0, 2)), 4: (1, (0, 2, 1, 3)), 2: (2, (1, 3, 1, 3)), 3: (2, (2, 4, 3, 5))},
         "edges": [(0, 4), (4, 2), (4, 3)],
     },
+    # node ids around the 8-bit and above the 16-bit boundary
+    "bigdiv": {
+        "nodes": {254: (0, (1, 3, 2, 4)), 255: (1, (0, 2, 1, 3)), 256: (1, (2, 4, 3, 5)), 70000: (2, (0, 2, 0, 2))},
+        "edges": [(254, 255), (254, 256), (255, 70000)],
+    },
     # node ids whose products wrap in a narrow label dtype (16 * 32 = 0 mod 256); for uint8 worlds
     "u8ids": {
         "nodes": {16: (0, (0, 2, 0, 3)), 32: (1, (0, 2, 1, 4)), 48: (2, (1, 3, 1, 3)), 64: (1, (2, 4, 3, 6))},
@@ -104,6 +109,8 @@ WORLDS = {
     "noseg-2d": dict(ndim=3, seg=False, scale=None, pos="single", extra=[], custom=True, ids="compute"),
     "noseg-2d-given": dict(ndim=3, seg=False, scale=None, pos="single", extra=[], custom=True, ids="given"),
     "noseg-2d-given0": dict(ndim=3, seg=False, scale=None, pos="single", extra=[], custom=True, ids="given0"),
+    "noseg-2d-bigids": dict(ndim=3, seg=False, scale=None, pos="single", extra=[], custom=True, ids="givenbig"),
+    "seg-2d-bigids": dict(ndim=3, seg=True, scale=None, pos="single", extra=["iou"], custom=False, ids="givenbig"),
     "noseg-2d-fd": dict(ndim=3, seg=False, scale=None, pos="single", extra=[], custom=False, ids="featuredict"),
     # renamed time / position / track / lineage keys
     "noseg-2d-renamed": dict(ndim=3, seg=False, scale=None, pos="single", extra=[], custom=True, ids="compute",
@@ -221,14 +228,15 @@ def make_graph(w, seed) -> tuple[nx.DiGraph, np.ndarray | None]:
             g.add_edge(u, v, w=float(u * 10 + v) - 12.0)  # edge (1, 2) carries the falsy value 0.0
         else:
             g.add_edge(u, v)
-    if w["ids"] in ("given", "featuredict", "given0"):
+    if w["ids"] in ("given", "featuredict", "given0", "givenbig"):
         zero = w["ids"] == "given0"  # zero-based ids: the falsy id 0 is a legal track / lineage id
+        big = w["ids"] == "givenbig"  # track ids crossing 255, lineage ids crossing 65535
         for i, s in enumerate(sorted(segments(g), key=lambda s: min(s))):
             for n in s:
-                g.nodes[n][w["keys"]["track"]] = i if zero else 3 * i + 2
+                g.nodes[n][w["keys"]["track"]] = i if zero else (3 * i + 253 if big else 3 * i + 2)
         for j, c in enumerate(sorted(components(g), key=lambda s: min(s))):
             for n in c:
-                g.nodes[n][w["keys"]["lineage"]] = j if zero else 2 * j + 5
+                g.nodes[n][w["keys"]["lineage"]] = j if zero else (2 * j + 65534 if big else 2 * j + 5)
     return g, seg
 
 
